@@ -145,8 +145,71 @@ fn c20_subs() -> Vec<Box<dyn Sub>> {
     })]
 }
 
+fn c15_subs() -> Vec<Box<dyn Sub>> {
+    let o = || DefOpts { encode: true, bitvec: false, rich_attrs: true, encoded_as: true };
+    vec![
+        Box::new(Check {
+            name: "covering_sets",
+            quick: 160,
+            thorough: 1_200,
+            strat: Box::new(move || {
+                use proptest::prelude::*;
+                // definitions plus built-in expressions in one corpus program
+                (crate::gen::program(2..6, o()), crate::gen::builtin_program(false)).prop_map(|(mut p, b)| {
+                    p.roots.extend(b.roots.into_iter().filter(|r| !r.uses_bitvec()));
+                    ProgCase { prog: p, entropies: vec![] }
+                }).boxed()
+            }),
+            body: Box::new(|c: &ProgCase, obs: &mut Obs| crate::p_features::features_body(c, obs, &crate::p_features::quick_sets())),
+            guard_death: false,
+            max_shrink: 48,
+        }),
+        Box::new(Check {
+            name: "bitvec_lane",
+            quick: 60,
+            thorough: 600,
+            strat: Box::new(|| {
+                use proptest::prelude::*;
+                crate::gen::builtin_program(false).prop_map(|mut p| {
+                    p.roots.push(crate::ast::TE::BitVec(8, false));
+                    p.roots.push(crate::ast::TE::Option(Box::new(crate::ast::TE::BitVec(64, true))));
+                    ProgCase { prog: p, entropies: vec![] }
+                }).boxed()
+            }),
+            body: Box::new(|c: &ProgCase, obs: &mut Obs| {
+                let sets: Vec<Vec<&'static str>> = vec![vec!["bit-vec"], vec!["bit-vec", "docs"], vec!["bit-vec", "std", "serde"], vec!["std", "serde", "decode", "bit-vec", "schema", "docs"]];
+                crate::p_features::features_body(c, obs, &sets)
+            }),
+            guard_death: false,
+            max_shrink: 48,
+        }),
+        Box::new(Check {
+            name: "all_sets",
+            quick: 0,
+            thorough: 160,
+            strat: Box::new(move || {
+                use proptest::prelude::*;
+                (crate::gen::program(2..6, DefOpts { encode: true, bitvec: false, rich_attrs: true, encoded_as: true }), crate::gen::builtin_program(false)).prop_map(|(mut p, b)| {
+                    p.roots.extend(b.roots.into_iter().filter(|r| !r.uses_bitvec()));
+                    ProgCase { prog: p, entropies: vec![] }
+                }).boxed()
+            }),
+            body: Box::new(|c: &ProgCase, obs: &mut Obs| crate::p_features::features_body(c, obs, &crate::p_features::all_sets())),
+            guard_death: false,
+            max_shrink: 32,
+        }),
+    ]
+}
+
 pub fn all() -> Vec<PropDef> {
     vec![
+        PropDef {
+            id: "C15",
+            rule: "generated corpus programs (2-5 derived definitions with every attribute class plus built-in type expressions; a separate lane with BitVec) compiled and run against scale-info built under several feature sets: quick = 6 covering sets (none, std, serde+decode without std, bit-vec+docs, schema, all), thorough = all 48 distinct sets; oracle = byte equality of encode(PortableRegistry) for sets with equal docs setting, and across docs on/off equality after blanking docs plus docs-off contained in docs-on; non-trivial = a (program, pair of differing feature sets), distinct by that triple",
+            assumptions: &["no Wasm target is installed: no_std means the host build without the std feature", "the derive feature is always on (the corpus needs it)"],
+            subs: c15_subs,
+            extra: None,
+        },
         PropDef {
             id: "C13",
             rule: "one generated generic definition per program (struct or enum; parameters used directly, in Vec/Option/tuple/array/Box/BTreeMap, in PhantomData, through T::A and <T as Tr>::B, in self-referential positions, as compact members, in #[codec(skip)] members and variants of types without type info; up to two lifetimes incl. 'b: 'a, const parameter, defaults, inline bounds, where-clauses, raw identifiers, skip_type_params, explicit bounds(..)) with 1-3 instantiations chosen so that exactly the stated premises hold; oracle = rustc accepts the definition and assert_type_info::<Inst>() (twin without the derive must compile too), type_info() runs and lists parameters Some/None per skip_type_params; non-trivial = at least one type parameter, distinct by case",
